@@ -190,4 +190,121 @@ theorem qInv_step (s s' : St) (a : Act) (hm : MutexInv cfg s) (hf : FreshInv s)
     exact hi.keep cfg (Nat.le_refl _) (fun _ h => h) (Or.inl rfl) rfl rfl
       (mv _ t _ (fun _ => rfl) (fun sid' => by rw [hp]; simp))
 
+/-! ### draining the queue -/
+
+def GoodQ (s : St) : Prop := Good cfg bytesOf s ∧ QInv cfg s
+
+theorem goodQ_run (hl : cfg.sendLocked = true) (acts : List Act) (s s' : St) (hg : GoodQ cfg bytesOf s)
+    (h : run cfg bytesOf acts s = some s') : GoodQ cfg bytesOf s' :=
+  run_inv cfg bytesOf (I := GoodQ cfg bytesOf) (fun _ => True)
+    (fun s a s' _ hi h =>
+      ⟨⟨core_step cfg bytesOf hl s a s' hi.1.1 h, freshInv_step cfg bytesOf s s' a hi.1.1.order hi.1.2 h⟩,
+       qInv_step cfg bytesOf s s' a hi.1.1.mutex hi.1.2 hi.2 h⟩)
+    acts s s' (fun _ _ => trivial) hg h
+
+theorem goodQ_reach (hl : cfg.sendLocked = true) {s : St} (hr : Reach cfg bytesOf s) : GoodQ cfg bytesOf s := by
+  obtain ⟨acts, h⟩ := hr
+  exact goodQ_run cfg bytesOf hl acts init s
+    ⟨⟨core_init cfg bytesOf, freshInv_init⟩, qInv_init cfg⟩ h
+
+theorem dequeue_ok {s : St} {sid : Nat} {q : List Nat} (hp : s.pc 0 = .idle) (hq : s.queue = sid :: q) (h0 : sid ≠ 0)
+    (hlk : cfg.procLocked = true → s.lock = none) :
+    step cfg bytesOf s .dequeue =
+      some ({ s with queue := q, lock := if cfg.procLocked = true then some 0 else s.lock }.setPc 0 (.made sid)) := by
+  have e1 : (Queue.step s.q .getNoWait).2.1 = .val sid := by simp [Queue.step, St.q, hq]
+  have e2 : (Queue.step s.q .getNoWait).1.items = q := by simp [Queue.step, St.q, hq]
+  simp only [step, hp, e1, e2]
+  rw [if_pos ⟨h0, hlk⟩]
+
+/-- growth of what the connections carried and of the logs -/
+def Grows (s s' : St) : Prop :=
+  (∀ w, s.sent w <+: s'.sent w) ∧ (∀ w, ∃ ext, s'.log.get w = s.log.get w ++ ext)
+
+theorem Grows.refl (s : St) : Grows s s := ⟨fun _ => List.prefix_refl _, fun _ => ⟨[], by simp⟩⟩
+
+theorem Grows.trans {a b c : St} (h1 : Grows a b) (h2 : Grows b c) : Grows a c := by
+  refine ⟨fun w => (h1.1 w).trans (h2.1 w), fun w => ?_⟩
+  obtain ⟨e1, he1⟩ := h1.2 w
+  obtain ⟨e2, he2⟩ := h2.2 w
+  exact ⟨e1 ++ e2, by rw [he2, he1]; simp⟩
+
+theorem Grows.whole {s s' : St} (h : Grows s s') {w sid : Nat} (hw : Whole bytesOf s w sid) : Whole bytesOf s' w sid :=
+  hw.mono bytesOf (h.1 w) (h.2 w)
+
+/-- process() handles the head of the queue: dials if there is no connection, writes, flushes -/
+theorem proc_item_ok (hl : cfg.sendLocked = true) (hra : cfg.rearm = true) (huq : cfg.useQueue = true)
+    (hne : ∀ sid, bytesOf sid ≠ []) (s : St) (hg : GoodQ cfg bytesOf s) (sid : Nat) (q : List Nat)
+    (hp : s.pc 0 = .idle) (hq : s.queue = sid :: q) (hlk : cfg.procLocked = true → s.lock = none) :
+    ∃ acts s', run cfg bytesOf acts s = some s' ∧ (∀ a ∈ acts, a.isFault = false) ∧ s'.queue = q ∧
+      s'.pc 0 = .idle ∧ (cfg.procLocked = true → s'.lock = none) ∧ (∃ w, Whole bytesOf s' w sid) ∧ Grows s s' := by
+  have h0 : sid ≠ 0 := hg.2.nz sid (by rw [hq]; simp)
+  let s1 : St := { s with queue := q, lock := if cfg.procLocked = true then some 0 else s.lock }.setPc 0 (.made sid)
+  have e1 : step cfg bytesOf s .dequeue = some s1 := dequeue_ok cfg bytesOf hp hq h0 hlk
+  have p1 : s1.pc 0 = .made sid := by simp [s1]
+  by_cases hc : s.conn = none
+  · -- dial
+    have e2 : step cfg bytesOf s1 (.connectOk 0) = some s1.connectNew := connectOk_ok cfg bytesOf p1 hc
+    have hfr : s1.connectNew.err.get s.next = false := hg.1.2.errFresh s.next (Nat.le_refl _)
+    obtain ⟨s', hrun, hlog, hb, hpd, _, _, hq', _, _, _, _, hpc, hlock, _, hgr1, hgr2⟩ :=
+      write_flush_ok cfg bytesOf hra (s := s1.connectNew) (w := s.next) (t := 0) (sid := sid) p1 rfl
+        (by simp [St.connectNew]) hfr (hne sid)
+    have hrunAll : run cfg bytesOf ([.dequeue, .connectOk 0] ++
+        [.writeBegin 0, .writeChunk 0 (bytesOf sid).length, .writeEnd 0, .flushOk 0]) s = some s' := by
+      simp only [List.cons_append, List.nil_append]
+      rw [run_cons_of_step cfg bytesOf _ e1, run_cons_of_step cfg bytesOf _ e2]; exact hrun
+    have hg' := goodQ_run cfg bytesOf hl _ s s' hg hrunAll
+    refine ⟨_, s', hrunAll, by simp [Act.isFault], hq', by simpa using hpc, ?_,
+      ⟨s.next, whole_of_flushed cfg bytesOf hg'.1 s.next sid _ hlog hb hpd⟩, ⟨hgr1, hgr2⟩⟩
+    intro hpl; rw [hlock]; simp [hpl]
+  · -- connected: the writer is clean because process() is idle
+    obtain ⟨w, hw⟩ : ∃ w, s.wr = some w := by
+      cases hwr : s.wr with
+      | none => exact absurd hwr (hg.1.1.order.connWr hc)
+      | some w => exact ⟨w, rfl⟩
+    have he : s.err.get w = false := by
+      cases hh : s.err.get w with
+      | false => rfl
+      | true =>
+        obtain ⟨sid', hf⟩ := hg.2.clean huq w hc hw hh
+        rw [hp] at hf; cases hf
+    obtain ⟨s', hrun, hlog, hb, hpd, _, _, hq', _, _, _, _, hpc, hlock, _, hgr1, hgr2⟩ :=
+      write_flush_ok cfg bytesOf hra (s := s1) (w := w) (t := 0) (sid := sid) p1 hw hc he (hne sid)
+    have hrunAll : run cfg bytesOf ([.dequeue] ++
+        [.writeBegin 0, .writeChunk 0 (bytesOf sid).length, .writeEnd 0, .flushOk 0]) s = some s' := by
+      simp only [List.cons_append, List.nil_append]
+      rw [run_cons_of_step cfg bytesOf _ e1]; exact hrun
+    have hg' := goodQ_run cfg bytesOf hl _ s s' hg hrunAll
+    refine ⟨_, s', hrunAll, by simp [Act.isFault], hq', by simpa using hpc, ?_,
+      ⟨w, whole_of_flushed cfg bytesOf hg'.1 w sid _ hlog hb hpd⟩, ⟨hgr1, hgr2⟩⟩
+    intro hpl; rw [hlock]; simp [hpl]
+
+/-- **Queue mode: every queued pack is eventually written whole.**  From any state satisfying the
+    invariants (in particular any reachable one, after any faults) in which process() is idle and
+    the send lock is free, there is a fault-free continuation in which process() empties the
+    queue; afterwards every pack that was queued lies whole on a connection. -/
+theorem drain (hl : cfg.sendLocked = true) (hra : cfg.rearm = true) (huq : cfg.useQueue = true)
+    (hne : ∀ sid, bytesOf sid ≠ []) :
+    ∀ (q : List Nat) (s : St), GoodQ cfg bytesOf s → s.queue = q → s.pc 0 = .idle →
+      (cfg.procLocked = true → s.lock = none) →
+      ∃ acts s', run cfg bytesOf acts s = some s' ∧ (∀ a ∈ acts, a.isFault = false) ∧ s'.queue = [] ∧
+        s'.pc 0 = .idle ∧ (∀ sid ∈ q, ∃ w, Whole bytesOf s' w sid) ∧ Grows s s' := by
+  intro q
+  induction q with
+  | nil =>
+    intro s _ hq hp _
+    exact ⟨[], s, rfl, by simp, hq, hp, by simp, Grows.refl s⟩
+  | cons sid q ih =>
+    intro s hg hq hp hlk
+    obtain ⟨a1, s1, hr1, hf1, hq1, hp1, hl1, ⟨w, hw⟩, hgr1⟩ := proc_item_ok cfg bytesOf hl hra huq hne s hg sid q hp hq hlk
+    obtain ⟨a2, s2, hr2, hf2, hq2, hp2, hall, hgr2⟩ := ih s1 (goodQ_run cfg bytesOf hl a1 s s1 hg hr1) hq1 hp1 hl1
+    refine ⟨a1 ++ a2, s2, by rw [run_append, hr1]; exact hr2, ?_, hq2, hp2, ?_, hgr1.trans hgr2⟩
+    · intro a ha
+      rcases List.mem_append.mp ha with h | h
+      · exact hf1 a h
+      · exact hf2 a h
+    · intro x hx
+      rcases List.mem_cons.mp hx with h | h
+      · subst h; exact ⟨w, hgr2.whole bytesOf hw⟩
+      · exact hall x h
+
 end Tcp
